@@ -159,6 +159,25 @@ def run_property(prop, tier, jobs):
         else:
             print('checker error: Lean lemma lemmas/SortedUnique.lean does not check')
             errors.append(('lemmas/SortedUnique.lean', 'lean failed'))
+    # ---- thorough: engine self-test on the mutants that touch this property's functions (a survivor = checker error)
+    selftest_note = None
+    if tier == 'thorough':
+        import glob
+        import runpy
+        sys.path.insert(0, os.path.join(VERIF, 'selftest'))
+        from selftest import run as st_run
+        paths = []
+        for mp_ in sorted(glob.glob(os.path.join(VERIF, 'selftest', 'mutants', 'm*.py'))):
+            if set(runpy.run_path(mp_)['FUNCS']) & set(fns):
+                paths.append(mp_)
+        from concurrent.futures import ThreadPoolExecutor
+        with ThreadPoolExecutor(8) as ex:
+            sres = list(ex.map(st_run.one, paths))
+        surv = [r for r in sres if r[1] == 'SURVIVED']
+        selftest_note = {'mutants': len(sres), 'killed': sum(r[1] == 'KILLED' for r in sres), 'survived': [r[0] for r in surv]}
+        if surv:
+            print('checker error: self-test mutants survived: %s' % [r[0] for r in surv])
+            errors.append(('selftest', 'surviving mutants %s' % [r[0] for r in surv]))
     # ---- bounded stand-in / cross-check on the real code (never counted as proved)
     from pyvc import realcheck
     rc = realcheck.run(prop, tier, seed)
@@ -236,6 +255,7 @@ def run_property(prop, tier, jobs):
             'solver_time_s': round(solver_time, 2),
             'tool_limits': [{'function': f, 'reason': t} for f, t in tool_limits],
             'lean_lemma': lemma_note,
+            'engine_selftest': selftest_note,
             'callee_contracts_assumed_not_proved': sorted(pending_contracts),
             'undischarged': [{'obligation': ob['full'], 'path': ob['path'], 'result': ob['result']} for r, ob in failing][:50],
             'vacuity_covers_refuted': len(vacuous),
